@@ -21,7 +21,7 @@ def main():
         txt = smt.vc_to_smt2(vc, ax)
         r = smt.discharge(txt, timeout=10)
         if r['status'] != 'unsat' or '-a' in sys.argv:
-            print('%-8s %-10s %6.2fs  %s' % (r['status'], r['solver'], r['seconds'], vc.name.split(':',1)[1]))
+            print('%-8s %-10s %6.2fs  %s %s' % (r['status'], r['solver'], r['seconds'], vc.name.split(':',1)[1], vc.info.get('line','')))
         if r['status'] != 'unsat':
             bad += 1
             if '-v' in sys.argv:
